@@ -26,7 +26,8 @@ EXPLANATION = (
     "a = first selected channel, b = 1; inversion a = nchans-1, b = -1; k summed/averaged inputs 0 <= a <= k-1, b = k; (R5) "
     "no floor division on an MHz quantity and no truncating int() of a frequency ratio used as a channel index; (R6) tsamp, "
     "nchans and foff of decimated products are scaled by the same factors as the data, and the DM applied is recorded. Not "
-    "decided: the 5 microsecond accuracy of mjd_after_nsamps."
+    "decided: the 5 microsecond accuracy of mjd_after_nsamps. "
+    "Since F39-F41 and F49: the sub-band slice of read_block is known to lie inside the band and its nchans / fch1 are the length and first channel of the slice (R1/R4); every block derived from a FilterbankBlock carries its DM and to_file records it (R6); valid-samples dedispersion advances tstart by the samples it drops, streamed products by the lead of their delays (R2); the .inf low-channel frequency and the fch1 rebuilt from it are mutually inverse for either sign of foff (R4)."
 )
 HEADER = "sigpyproc.header"
 CONTAINERS = {"TimeSeries", "FilterbankBlock", "DMTBlock"}
